@@ -183,6 +183,7 @@ private:
         bool self_seed{false};
         bool self_leecher{false};
     };
+    mutable std::mutex handshake_mutex_;  // perform_handshake runs on the transport accept thread and on tick/reader threads
     std::unordered_map<std::string, HandshakeRecord> handshake_state_;
     std::vector<std::string> cleanup_notifications_;
     std::chrono::steady_clock::time_point last_cleanup_{};
